@@ -242,7 +242,8 @@ FinalStep ==
     /\ LET o == Line.obs
            v == verdict
                 \* API views and repository content
-                \cup (IF /\ Line.equal /\ Line.settledok
+                \* (also as seen by a fresh runtime on the same directory)
+                \cup (IF /\ Line.equal /\ Line.equalrestart /\ Line.settledok
                          /\ o.rrdpeq /\ o.rsynceq
                          /\ o.objsbad = <<>> /\ ObsAllLoad(o)
                       THEN {} ELSE {"TwinEquivalence"})
